@@ -16,7 +16,8 @@ func register(prop string, fs ...streamFn) { propStreams[prop] = append(propStre
 
 func init() {
 	register("C07", streamMarkers)
-	register("C10", streamEscape)
+	register("C10", streamEscape, streamSplits)
+	register("C09", streamSplits)
 	register("C01", streamBuffer)
 	register("C03", streamBuffer)
 	register("C09", streamBuffer)
